@@ -618,7 +618,12 @@ def m_dec_mul(ex, st, a, c, m):
     inexact = bool(x.fields[2] or y.fields[2])
     n = z3.simplify(x.fields[0] * y.fields[0])
     d = z3.simplify(x.fields[1] * y.fields[1])
-    r = some(Dec(n, d, inexact))
+    factors = None
+    for u, v in ((x, y), (y, x)):
+        fu = u.fields[4] if len(u.fields) > 4 else None
+        if fu is not None and fu[1] is None and z3.is_int_value(v.fields[1]) and v.fields[1].as_long() == 1 and not v.fields[2]:
+            factors = (fu[0], v.fields[0], fu[2])
+    r = some(Dec(n, d, inexact, None, factors))
     if z3.is_app(n) and n.decl().kind() == z3.Z3_OP_MUL:
         ex.range_fact(st, n)
     if z3.is_app(d) and d.decl().kind() == z3.Z3_OP_MUL:
@@ -633,7 +638,9 @@ def m_dec_div(ex, st, a, c, m):
     x, y = dec(ex, a[0]), dec(ex, a[1])
     n = z3.simplify(x.fields[0] * y.fields[1])
     d = z3.simplify(x.fields[1] * y.fields[0])
-    return [(y.fields[0] > 0, some(Dec(n, d, True))), (y.fields[0] == 0, NONE()), (y.fields[0] < 0, Opaque('OOB', 'negative divisor'))]
+    one = lambda t: z3.is_int_value(t) and t.as_long() == 1
+    ratio = (x.fields[0], None, y.fields[0]) if one(x.fields[1]) and one(y.fields[1]) else None
+    return [(y.fields[0] > 0, some(Dec(n, d, True, None, ratio))), (y.fields[0] == 0, NONE()), (y.fields[0] < 0, Opaque('OOB', 'negative divisor'))]
 
 
 def m_dec_sub(ex, st, a, c, m):
@@ -755,7 +762,7 @@ def m_dec_round(ex, st, a, c, m):
     r = hit[2]
     cons = round_constraint(strat.variant, n, d, r, bool(inexact))
     if inexact and st.world is not None:
-        st.world.ties.append((n, d, r))
+        st.world.ties.append((n, d, r, x.fields[4] if len(x.fields) > 4 else None))
     if not any(z3.eq(cons, p) for p in st.pc):
         st.pc.append(cons)
         st.pc.append(z3.And(r >= 0, r <= n + 1))       # linear range fact for the pruning tier (n >= 0, d >= 1)
